@@ -102,7 +102,7 @@ def floors(tier):
             "raised_ValidationError": 20000, "raised_RefResolutionError": 50, "raised_UnknownType": 20,
             "distinct_nontrivial": 20000, "entry:is_valid": 10000, "entry:iter_errors": 10000,
             "entry:validate": 2000, "entry:module_validate": 2000, "entry:with_format_checker": 2000,
-            "pairs_consulting": 500, "hostile_string_schemas": 1000}
+            "pairs_consulting": 500, "hostile_string_schemas": 1000, "reused_validator_sequences": 500}
 
 
 # --------------------------------------------------------------------- known-finding classifiers
@@ -276,6 +276,24 @@ class Runner:
                     lambda: jsonschema.validate(inst, schema, cls=cls, format_checker=self.fc))
 
 
+    def reused(self, draft, schema, insts):
+        """One validator object taken through every entry point over a sequence of instances: whatever an earlier
+        call did (also one that ended in RefResolutionError / UnknownType) must not make a later one escape."""
+        cls = impl.CLS[draft]
+        try:
+            v = cls(schema)
+            vf = cls(schema, format_checker=self.fc)
+        except Exception:
+            return
+        self.ctx.count("reused_validator_sequences")
+        for inst in insts:
+            self.op(draft, schema, inst, "is_valid[reused validator]", lambda: v.is_valid(inst))
+            self.op(draft, schema, inst, "iter_errors[reused validator]", lambda: list(v.iter_errors(inst)))
+            self.op(draft, schema, inst, "validate[reused validator]", lambda: v.validate(inst))
+            self.op(draft, schema, inst, "iter_errors+fc[reused validator]", lambda: list(vf.iter_errors(inst)))
+            self.op(draft, schema, inst, "is_valid[reused validator]", lambda: v.is_valid(inst))
+
+
 def gate(ctx, d, schema):
     try:
         return impl.accepts(d, schema)
@@ -414,6 +432,10 @@ def _core(ctx, R):
             ctx.count("odd_ref_schemas")
             for inst in [1, "a", {}, {"p": 1}, {"a": {"a": 1}}, [1, [2]], None]:
                 R.case(d, s, inst)
+            R.reused(d, s, [1, {"p": 1}, {}, {"a": {"a": 1}}, [1, [2]], {"p": 1}, "a"])
+            if isinstance(s, dict) and impl.IDKW[d] not in s:
+                # the same under a root id (a base URI is pushed for every call)
+                R.reused(d, dict(s, **{impl.IDKW[d]: "http://vf.example/root.json"}), [{"p": 1}, {}, [1, [2]], {"a": {"a": 1}}, 1])
 
 
 HOSTILE_STRINGS = ["%", "%s", "%d", "%(x)s", "%%", "50%", "{}", "{0}", "{error}", "{file_name}", "\\", "'", '"', "a\nb", "\x00",
@@ -525,6 +547,8 @@ def _random(ctx, R):
         ig = InstGen(rng, schema)
         for inst in ig.batch(4) + rng.sample(HOSTILE_INSTANCES, 3):
             R.case(d, schema, inst)
+        if i % 3 == 0:
+            R.reused(d, schema, ig.batch(3) + rng.sample(HOSTILE_INSTANCES, 2))
         if i % 211 == 0:
             ctx.sample({"draft": d, "schema": schema, "instance": ig.directed()})
 
